@@ -88,8 +88,11 @@ CLAIMS = {
          "property text itself speaks of stage 1 only. Also outside: SCTLR.HA; Long-descriptor fault *reporting* stops at a "
          "mock hook (NotImplementedError), so there only 'a fault is raised exactly when specified' is proved; SCTLR.TRE == 0 likewise.",
          "DESIGN.md 14.13"),
- 'C16': ("MemoryControllerHub.__getitem__/__setitem__ with MemoryController/RAM/to_int/from_int inlined, over controller lists of "
-         "length 0..3 (thorough 0..5) with symbolic bounds, sizes and contents and an arbitrary 40-bit address: little-endian value of "
+ 'C16': ("For controller lists of ANY length: get_memory_by_address with its for-each loop cut (head: scans self.memories itself front to back; "
+         "step: an arbitrary controller is returned iff beginning <= address < end, else passed over, nothing modified; tail: None), and "
+         "MemoryControllerHub.__getitem__/__setitem__ (RAM/to_int/from_int inlined) against that contract over an opaque list, sizes 1/2/4/8. "
+         "Cross-check with everything inlined over controller lists of "
+         "length 0..3 (thorough 0..5) with symbolic bounds, sizes and contents and an arbitrary 40-bit address. Both: little-endian value of "
          "exactly the addressed bytes, every other byte of every device unchanged (extensional at an arbitrary probe index), unmapped "
          "reads 0, len(memory_array)==size==end-beginning preserved, no host error incl. accesses crossing the end of a device; add_memory / "
          "from_memory_list establish that representation (appended in order, zero-filled store of end-beginning bytes).",
